@@ -152,7 +152,7 @@ func (e *Exec) initAllowed(p *ssa.Package) bool {
 		return true
 	}
 	path := p.Pkg.Path()
-	if path == "math/big" || path == "crypto/rsa" || path == "crypto/elliptic" {
+	if path == "math/big" || path == "crypto/rsa" || path == "crypto/elliptic" || path == "encoding/pem" {
 		return true
 	}
 	for _, d := range initDeny {
